@@ -147,7 +147,7 @@ func NewSolver(bin string, timeoutMs int, logw io.Writer) (*Solver, error) {
 	s := &Solver{bin: bin, defined: map[int]int{}, declLvl: map[string]int{}, log: logw, timeout: timeoutMs, AuxWins: map[string]int{}}
 	s.levels = [][]int{nil}
 	s.lines = [][]string{nil}
-	s.quickMs = 150
+	s.quickMs = 400
 	if err := s.startMain(); err != nil {
 		return nil, err
 	}
@@ -205,8 +205,8 @@ func (s *Solver) note(fellBack bool) {
 			n++
 		}
 	}
-	if len(s.recent) >= 12 && n*3 >= len(s.recent) {
-		s.directLeft = 60
+	if len(s.recent) >= 20 && n*5 >= len(s.recent)*3 {
+		s.directLeft = 40
 		s.recent = s.recent[:0]
 		if s.main != nil {
 			s.main.kill()
